@@ -224,6 +224,16 @@ def rule_dup(ctx):
         rep.ob('DUP', K.key('database._merge_database_dicts', None, 'merge(%s)-preceded-by-duplicate-assert' % sect),
                ok, m, '' if ok else 'the %r section is merged without a dominating assertion that its names do not '
                'collide with the accumulated dataset and alias names' % sect)
+    # the alias section is optional in every part: every read of <part>['alias'] is guarded by membership
+    for n in A.walk_local(fn):
+        if isinstance(n, ast.Subscript) and isinstance(n.ctx, ast.Load) and _const_str(n.slice) == 'alias':
+            cont = A.src(n.value)
+            guarded = any(isinstance(c, ast.Compare) and _const_str(c.left) == 'alias' and A.src(c.comparators[0]) == cont
+                          and ((isinstance(c.ops[0], ast.In) and b) or (isinstance(c.ops[0], ast.NotIn) and not b))
+                          for t, b in flow.guards_of(n, fn) for c in ast.walk(t))
+            rep.ob('OK', 'database._merge_database_dicts::alias-section-optional(%s)' % cont, guarded, n,
+                   '' if guarded else '`%s[\'alias\']` is read without testing `\'alias\' in %s`: a description without alias '
+                   'section (allowed, see Database.data) raises KeyError when merged' % (cont, cont))
     # the accumulated names contain both datasets and aliases
     dn = [d for t in taken for d in defs.get(t, [])]
     ok = bool(dn) and all("'datasets'" in A.src(d) and "'alias'" in A.src(d) for d in dn)
